@@ -232,13 +232,19 @@ prop("C11", lambda tier: [
 prop("C15", lambda tier: [
         binc("c15", "UNIT_EXCLUDE=myth_bind_worker engine/build_unit.sh c15 harness/c15_config.c", "build/c15/c15 --stats {stats} --tier quick", "build/c15/c15 --stats {stats} --tier thorough",
              "E3 seqmc (bounded exhaustive inputs and histories vs reference recogniser / model)", deadline=(150, 1500)),
-        e1("c15f", "harness/c15_fini.c")],
+        e1("c15f", "harness/c15_fini.c"),
+        binc("c15e2", "engine/build_e2_init.sh c15e2", "build/c15e2/c15e2 --stats {stats} --tier quick", "build/c15e2/c15e2 --stats {stats} --tier thorough",
+             "E2 unitmc (explicit-state, access granularity, SC and x86-TSO)")],
      "every CPU-list string of length <=5/6 over \"019-:, \\nx\" plus structured long ones through the real parser vs an independent recogniser; every string of length <=3 over {0,1,7,-,+,' ',x} "
      "(and unset) for MYTH_NUM_WORKERS / MYTH_DEF_STKSIZE / MYTH_BIND_WORKERS, selected MYTH_CPU_LIST values, one process each; every init/fini history of length <=4/5 over "
-     "{init_ex(1|2|3), init(), implicit init by create, fini, query}; worker counts 1..64; E1: myth_fini under schedule control with main possibly migrated",
+     "{init_ex(1|2|3), init(), implicit init by create, fini, query} with a worker-occupancy test after every creation; worker counts 1..64; two long histories (150-600 init/fini cycles in one process); "
+     "the CPU table rebuilt 100/400 times vs its first build; E1: myth_fini under schedule control with main possibly migrated; "
+     "E2: 2-3(4) threads whose first use overlaps run the text of myth_init_ex_body / once-control functions (cut out of src/myth_init.c at build time, the real initialisation replaced by a counter) "
+     "under every interleaving, SC and x86-TSO: initialised exactly once, nobody returns before it is done",
      assumptions=["reference recogniser for the grammar range(,range)*, range ::= a | a-b | a-b:c, numbers of <=6 digits compared exactly (longer literals: no crash / no hang only)",
                   "an explicit myth_init_ex installs its attributes as the global attributes, which later implicit initialisations use (the library's documented global-attribute semantics)",
-                  "well-formed but unusable requests (1..32767-byte default stacks, more than 64 workers) are excluded as the property says"] + E1_ASSUME)
+                  "well-formed but unusable requests (1..32767-byte default stacks, more than 64 workers) are excluded as the property says",
+                  "c15e2 is bound to the source text: if the three functions cannot be located in src/myth_init.c the component explores nothing, says so in the evidence and claims nothing"] + E1_ASSUME)
 
 DAG_ENGINE = "E3 seqmc (serial multi-worker simulator driving the real DAG Recorder; bounded exhaustive programs x schedules x options vs an interval-list oracle)"
 DAG_ASSUME = ["the recorder sources (src/profiler/*.c, dag_recorder_inl.h) are compiled unchanged with -DMYTH_VERIF, whose only effect there is the virtual-clock seam dr_verif_clock in dr_get_tsc",
